@@ -79,6 +79,14 @@ class Check:
             }
         )
 
+    def require_actions(self, res, ndisjuncts, what, action="Next"):
+        """Vacuity guard (TLC -coverage): the next-state relation has `ndisjuncts` top-level disjuncts (one per
+        modelled action) and every one of them must have produced at least one state."""
+        ent = [(d, t) for (n, d, t) in res.coverage_list if n == action]
+        if len(ent) < ndisjuncts or any(t == 0 for d, t in ent):
+            raise MachineryFailure(f"vacuous model check {what}: {len(ent)} disjuncts of {action} reported (expected {ndisjuncts}), counts {ent}")
+        self.notes.setdefault("action_coverage", {})[what] = [t for d, t in ent]
+
     def count(self, n=1):
         self.cov["evaluations"] += n
 
